@@ -177,12 +177,22 @@ def _plane_batch(tier):
                         out.append(mk(plane="batch", method=method, opkind=kind, E=em,
                                       Edtype=("complex" if dtype == "c128" and em != "none" else "-"),
                                       dtype=dtype, spec="spd", n=3, ncols=2, bA=bA, bB=bB, bE=bE, bM=bM))
+                        # sizes that coincide with batch lengths (n = ncols = 2 or 3 next to batch axes of length
+                        # 2 / 3): a right-hand side of shape (n, ncols) must not be read as a batch of vectors
+                        if kind == "dense" and dtype == "f64" and method in ("exactsolve", "custom_exactsolve",
+                                                                              "bicgstab"):
+                            for nn in (2, 3):
+                                out.append(mk(plane="batch", method=method, opkind=kind, E=em, Edtype="-",
+                                              dtype=dtype, spec="spd", n=nn, ncols=nn, bA=bA, bB=bB, bE=bE, bM=bM))
     if tier == "quick":
         # exactsolve proper (not through the autograd Function) on the same lattice, dense only
         for em in ["none", "E", "EM"]:
             for (bA, bB, bE, bM) in sc.batch_patterns(alph[em], em):
                 out.append(mk(plane="batch", method="exactsolve", opkind="dense", E=em, spec="nonherm", n=3, ncols=2,
                               bA=bA, bB=bB, bE=bE, bM=bM))
+                for nn in (2, 3):
+                    out.append(mk(plane="batch", method="exactsolve", opkind="dense", E=em, spec="nonherm", n=nn,
+                                  ncols=nn, bA=bA, bB=bB, bE=bE, bM=bM))
     return out
 
 
